@@ -96,7 +96,7 @@ pub fn exec_labels(init: (usize, usize, usize), labels: &[Label]) -> Outcome {
     for l in labels {
         if let Some(p) = prev { if p != l.tid && case.state(p) != WState::Idle { pre += 1; } }
         let t = case.step(l);
-        if t == "B" { blocked += 1; }
+        if t.starts_with('B') { blocked += 1; }
         toks.push(t);
         prev = Some(l.tid);
     }
@@ -136,8 +136,8 @@ fn exec_program(prog: &Program, choose: &mut dyn FnMut(usize, &[Label], &[Label]
         if let Some(p) = prev { if p != l.tid && case.state(p) != WState::Idle { pre += 1; } }
         let was_idle = case.avail(l.tid) == Avail::NeedsOp;
         let tok = case.step(&l);
-        if tok == "B" { blocked_n += 1; }
-        if was_idle && l.op.is_some() && tok != "-" { *next_op.entry(l.tid).or_insert(0) += 1; }
+        if tok.starts_with('B') { blocked_n += 1; }
+        if was_idle && l.op.is_some() && !tok.starts_with('-') { *next_op.entry(l.tid).or_insert(0) += 1; }
         prev = Some(l.tid);
         labels.push(l);
         toks.push(tok);
@@ -210,20 +210,26 @@ pub fn programs(thorough: bool, rng: &mut Rng) -> Vec<(Program, usize, usize)> {
     let p = |name: &str, init: (usize, usize, usize), prods: Vec<Vec<Op>>, cons: Vec<Op>, stop: Vec<Op>| Program {
         name: name.into(), init, prods, cons, stop };
     let k = if thorough { 8 } else { 1 };
+    // exhaustive (all interleavings) only where the whole tree fits the tier; random walks otherwise
+    let big = if thorough { 60_000 } else { 0 };
     // one producer, one consumer
-    v.push((p("1p-send-recv", (1, 0, 1), vec![vec![s1(1)]], vec![Op::Recv], vec![]), 2000 * k, 0));
-    v.push((p("1p-full-dropoldest", (1, 0, 1), vec![vec![s1(1), s1(2)]], vec![Op::Recv], vec![]), 1500 * k, 200 * k));
-    v.push((p("1p-try-full", (1, 0, 1), vec![vec![Op::TrySend(1), Op::TrySend(2)]], vec![Op::Recv], vec![]), 1000 * k, 0));
+    v.push((p("1p-send-recv", (1, 0, 1), vec![vec![s1(1)]], vec![Op::Recv], vec![]), big, 700 * k));
+    v.push((p("1p-try-recv", (2, 0, 1), vec![vec![Op::TrySend(1)]], vec![Op::Recv], vec![]), big, 300 * k));
+    v.push((p("1p-full-dropoldest", (1, 0, 1), vec![vec![s1(1), s1(2)]], vec![Op::Recv], vec![]), 0, 700 * k));
+    v.push((p("1p-try-full", (1, 0, 1), vec![vec![Op::TrySend(1), Op::TrySend(2)]], vec![Op::Recv], vec![]), 0, 400 * k));
     v.push((p("1p-many-cap2", (2, 0, 1), vec![vec![Op::Send(vec![1, 2, 3])]], vec![Op::Recv, Op::Recv], vec![]), 0, 300 * k));
-    v.push((p("1p-send-drop-recv", (2, 0, 1), vec![vec![s1(1), Op::DropSrc]], vec![Op::Recv, Op::Recv], vec![]), 1500 * k, 200 * k));
-    v.push((p("1p-drop-recv", (1, 0, 1), vec![vec![Op::DropSrc]], vec![Op::Recv], vec![]), 500, 0));
-    v.push((p("1p-send-stop", (2, 0, 1), vec![vec![s1(1)]], vec![Op::Recv, Op::Recv], vec![Op::Stop]), 0, 300 * k));
-    v.push((p("stop-recv", (1, 0, 1), vec![vec![]], vec![Op::Recv], vec![Op::Stop]), 500, 0));
+    v.push((p("1p-send-drop-recv", (2, 0, 1), vec![vec![s1(1), Op::DropSrc]], vec![Op::Recv, Op::Recv], vec![]), 0, 900 * k));
+    v.push((p("1p-drop-recv", (1, 0, 1), vec![vec![Op::DropSrc]], vec![Op::Recv], vec![]), 1000, 0));
+    v.push((p("1p-send-stop", (2, 0, 1), vec![vec![s1(1)]], vec![Op::Recv, Op::Recv], vec![Op::Stop]), 0, 400 * k));
+    v.push((p("stop-recv", (1, 0, 1), vec![vec![]], vec![Op::Recv], vec![Op::Stop]), 1000, 0));
+    v.push((p("stop-send", (1, 0, 1), vec![vec![s1(1)]], vec![], vec![Op::Stop]), 1000, 0));
+    v.push((p("drop-stop-recv", (1, 0, 1), vec![vec![Op::DropSrc]], vec![Op::Recv], vec![Op::Stop]), big, 300 * k));
     // two and three producers (cloned handles)
-    v.push((p("2p-send-send", (2, 0, 2), vec![vec![s1(1)], vec![s1(1)]], vec![], vec![]), 1500 * k, 0));
-    v.push((p("2p-send-send-recv", (2, 0, 2), vec![vec![s1(1)], vec![s1(1)]], vec![Op::Recv], vec![]), 0, 400 * k));
-    v.push((p("2p-cap1-overflow", (1, 0, 2), vec![vec![s1(1), s1(2)], vec![Op::TrySend(1), s1(2)]], vec![Op::Recv, Op::Recv], vec![]), 0, 400 * k));
-    v.push((p("2p-clone-drop", (2, 0, 1), vec![vec![Op::CloneTo(1), s1(1), Op::DropSrc], vec![s1(1), Op::DropSrc]], vec![Op::Recv, Op::Recv, Op::Recv], vec![]), 0, 400 * k));
+    v.push((p("2p-send-send", (2, 0, 2), vec![vec![s1(1)], vec![s1(1)]], vec![], vec![]), 1000, 0));
+    v.push((p("2p-try-send", (1, 0, 2), vec![vec![Op::TrySend(1)], vec![s1(1)]], vec![], vec![]), 1000, 0));
+    v.push((p("2p-send-send-recv", (2, 0, 2), vec![vec![s1(1)], vec![s1(1)]], vec![Op::Recv], vec![]), 0, 500 * k));
+    v.push((p("2p-cap1-overflow", (1, 0, 2), vec![vec![s1(1), s1(2)], vec![Op::TrySend(1), s1(2)]], vec![Op::Recv, Op::Recv], vec![]), 0, 500 * k));
+    v.push((p("2p-clone-drop", (2, 0, 1), vec![vec![Op::CloneTo(1), s1(1), Op::DropSrc], vec![s1(1), Op::DropSrc]], vec![Op::Recv, Op::Recv, Op::Recv], vec![]), 0, 500 * k));
     v.push((p("3p-mixed", (3, 0, 3), vec![vec![Op::Send(vec![1, 2])], vec![Op::TrySend(1), Op::DropSrc], vec![s1(1), s1(2)]], vec![Op::Recv, Op::Recv], vec![Op::Stop]), 0, 300 * k));
     // index wrap-around of the ring (power-of-two capacity: harmless; see NOTES for capacity 3)
     v.push((p("wrap-cap2", (2, usize::MAX - 1, 1), vec![vec![Op::Send(vec![1, 2, 3])]], vec![Op::Recv, Op::Recv], vec![]), 0, 100 * k));
